@@ -18,6 +18,8 @@ Families
                   restricted to the cases whose closed-form price (models/bs_closed.py) is strictly
                   monotone in volatility on the whole bracket [0.001, 1] (decided by the model).
                   Oracle in price space (no division by a vanishing vega).
+  iv_bound        modules attached to a derivative: price() / implied_volatility() with the arguments read from the
+                  derivative's buffers (scripted market, all paths).
   iv_batch        the same cases of one module and one direction in ONE call (a tensor over moneyness /
                   maturity / strike), as implied volatilities are computed in practice.
 """
@@ -701,6 +703,69 @@ def iv_batch(ctx, block):
     ctx.outcome((product, call, want, len(rows), round(float(iv.sum()), 6)))
 
 
+@family
+def iv_bound(ctx, block):
+    """Modules attached to a derivative (BlackScholes(derivative)): price() and implied_volatility() read
+    log-moneyness, running maximum and time from the derivative's buffers (scripted market, all |A|^T paths);
+    arguments the caller leaves out must be the derivative's own - the volatility that generated the price is
+    recovered element-wise on every (path, step) with time to maturity > 0 whose model price is monotone."""
+    from mc.core import market
+    from mc.core.explore import all_paths
+    from pfhedge.nn import BlackScholes
+    product, call, K = block["product"], block["call"], block["K"]
+    T, A, dt, sigma = block["T"], block["A"], block["dt"], block["sigma"]
+    prec = 1e-6
+    spot = all_paths(A, T, dtype=torch.float64)
+    if block.get("rows") is not None:
+        spot = spot[block["rows"]]
+    stock = market.primary("brownian", dtype=torch.float64, dt=dt, sigma=sigma)
+    market.set_buffers(stock, spot=spot)
+    kw = {"strike": K}
+    if product in ("european", "european_binary"):
+        kw["call"] = call
+    deriv = market.derivative(product, stock, T=T, **kw)
+    module = BlackScholes(deriv)
+    site = f"BlackScholes({CLASSES[product][2:]}).implied_volatility"
+    lm, tt = deriv.log_moneyness(), deriv.time_to_maturity()
+    mm = deriv.max_log_moneyness() if product in NEEDS_MAX else lm
+    N = spot.size(0)
+    for given in block.get("given", ["none", "log_moneyness+time_to_maturity"]):
+        try:
+            with watchdog(100, work=10):
+                price = module.price()
+                args = {} if given == "none" else {"log_moneyness": lm.clone(), "time_to_maturity": tt.clone()}
+                iv = module.implied_volatility(price=price, **args)
+        except _Hang:
+            ctx.violation(site, "hang", "implied_volatility did not stop within the CPU budget of its 100 iterations", block=block)
+            continue
+        except RuntimeError as e:
+            ctx.tick(N * (T - 1))
+            ctx.violation(site, "raises", f"{site}(price=price(), arguments given: {given}) raised {e}", observed=str(e), block=block)
+            continue
+        if tuple(iv.shape) != (N, T):
+            ctx.violation(site, "shape", f"shape {tuple(iv.shape)} != {(N, T)}", block=block)
+            continue
+        nontriv = 0
+        for i in range(N):
+            for j in range(T - 1):
+                case = (float(lm[i, j]), float(mm[i, j]), float(tt[i, j]))
+                d = monotone_direction(product, call, *case)
+                if d == 0:
+                    ctx.add("iv_cases_excluded_not_monotone", 1)
+                    continue
+                x = float(iv[i, j])
+                ok, informative, fv, tolP = _iv_verdict(product, call, K, case, sigma, x, prec, d)
+                nontriv += informative
+                if x != x or not ok:
+                    b = dict(block, rows=[block["rows"][i] if block.get("rows") is not None else i], given=[given])
+                    ctx.violation(site, "iv_bound_" + ("increasing" if d > 0 else "decreasing"),
+                                  f"{site}(price=price()) with arguments given: {given}; path {spot[i].tolist()} step {j} "
+                                  f"(s={case[0]}, m={case[1]}, t={case[2]}, K={K}, volatility {sigma}): price {fv!r} gives iv = {x!r}",
+                                  observed=x, expected=sigma, block=b)
+        ctx.tick(N * (T - 1), nontrivial=nontriv)
+        ctx.outcome((product, call, "bound", given, sigma, round(float(iv[N // 2, 0]), 6)))
+
+
 # ------------------------------------------------------------------------------------------------
 
 S_QUICK = [-0.5, -0.05, 0.0, 0.05, 0.5, 1.0]
@@ -845,6 +910,17 @@ def run(ctx):
         for product in B.PRODUCTS:
             ivb.append({"product": product, "call": True, "K": 1.3, "grid": {"s": [-0.05, 0.05], "t": [0.08, 1.0], "m": m_alpha[:2]},
                         "precision": 1e-9})
+    bound = []
+    for product in B.PRODUCTS:
+        for call in ([True, False] if product in ("european", "european_binary") else [True]):
+            for sigma in ([0.2, 0.7] if quick else [0.05, 0.2, 0.35, 0.7]):
+                bound.append({"product": product, "call": call, "K": 1.3, "T": 3 if quick else 4,
+                              "A": [1.0, 1.25, 1.5] if quick else [0.875, 1.25, 1.5, 2.75], "dt": 0.25, "sigma": sigma})
+    if quick:
+        for b in bound:
+            ctx.run("iv_bound", b)
+    else:
+        ctx.run_parallel("iv_bound", bound)
     if quick:
         for b in ivb:
             ctx.run("iv_cases", b)
